@@ -473,3 +473,51 @@ Example C16_maps_code_nonvacuous :
     [[]; [(s "a", VNil)]; []; [(s "a", VNil); (s "b", VNil)]; []] [] (s " ") [] =
     Ret (s "{}" ++ [nl] ++ s "{1}" ++ [nl] ++ s "{}", Some EOther).
 Proof. vm_compute. reflexivity. Qed.
+
+(* ---- tie to the CURRENT sources of the Writer forms (json.go: Map.JsonWriter, JsonWriterRaw, JsonIndentWriter,
+   JsonIndentWriterRaw; xml.go: Map.XmlWriter, Map.XmlIndentWriter; xmlseq.go: MapSeq.XmlWriter, MapSeq.XmlIndentWriter):
+   go2v re-translates them on every run (the io.Writer is the bytes written so far; Write appends and does not fail)
+   and GenProofs/PureG16.v proves them equal to the models [writer_form] / [writer_raw_form] the theorems above are
+   stated with, for ANY byte-returning encoder: they write exactly the bytes the byte-returning form returns (and the
+   Raw forms return them as well), and nothing when the encoder fails. *)
+From Mxj Require Import GenProofs.PureG16.
+
+Theorem C16_json_writer_code : forall (Json : entries -> list bool -> res str) st mv w safe,
+  fn_JsonWriter Json st mv w safe = wf_result (writer_form (Json mv safe) w).
+Proof. exact json_writer_code. Qed.
+Print Assumptions C16_json_writer_code.
+
+Theorem C16_json_writer_raw_code : forall (Json : entries -> list bool -> res str) st mv w safe,
+  fn_JsonWriterRaw Json st mv w safe = wrf_result (writer_raw_form (Json mv safe) w).
+Proof. exact json_writer_raw_code. Qed.
+Print Assumptions C16_json_writer_raw_code.
+
+Theorem C16_json_indent_writer_code : forall (JsonIndent : entries -> str -> str -> list bool -> res str) st mv w p i safe,
+  fn_JsonIndentWriter JsonIndent st mv w p i safe = wf_result (writer_form (JsonIndent mv p i safe) w).
+Proof. exact json_indent_writer_code. Qed.
+Print Assumptions C16_json_indent_writer_code.
+
+Theorem C16_json_indent_writer_raw_code : forall (JsonIndent : entries -> str -> str -> list bool -> res str) st mv w p i safe,
+  fn_JsonIndentWriterRaw JsonIndent st mv w p i safe = wrf_result (writer_raw_form (JsonIndent mv p i safe) w).
+Proof. exact json_indent_writer_raw_code. Qed.
+Print Assumptions C16_json_indent_writer_raw_code.
+
+Theorem C16_map_xml_writer_code : forall (Xml : entries -> list str -> res str) st mv w rt,
+  fn_Map_XmlWriter Xml st mv w rt = wf_result (writer_form (Xml mv rt) w).
+Proof. exact map_xml_writer_code. Qed.
+Print Assumptions C16_map_xml_writer_code.
+
+Theorem C16_map_xml_indent_writer_code : forall (XmlIndent : entries -> str -> str -> list str -> res str) st mv w p i rt,
+  fn_Map_XmlIndentWriter XmlIndent st mv w p i rt = wf_result (writer_form (XmlIndent mv p i rt) w).
+Proof. exact map_xml_indent_writer_code. Qed.
+Print Assumptions C16_map_xml_indent_writer_code.
+
+Theorem C16_seq_xml_writer_code : forall (Xml : entries -> list str -> res str) st mv w rt,
+  fn_MapSeq_XmlWriter Xml st mv w rt = wf_result (writer_form (Xml mv rt) w).
+Proof. exact seq_xml_writer_code. Qed.
+Print Assumptions C16_seq_xml_writer_code.
+
+Theorem C16_seq_xml_indent_writer_code : forall (XmlIndent : entries -> str -> str -> list str -> res str) st mv w p i rt,
+  fn_MapSeq_XmlIndentWriter XmlIndent st mv w p i rt = wf_result (writer_form (XmlIndent mv p i rt) w).
+Proof. exact seq_xml_indent_writer_code. Qed.
+Print Assumptions C16_seq_xml_indent_writer_code.
